@@ -471,9 +471,9 @@ class C12(Check):
         blocks = [("exhaustive_builtin", exhaustive_builtin(self.tier)),
                   ("exhaustive_user", exhaustive_user(self.tier)),
                   ("alias_graphs", alias_cases()),
-                  ("random_tame", [gen_case(self.rng) for _ in range(2500 if q else 40000)]),
-                  ("random_odd", [gen_case(self.rng, odd=True) for _ in range(800 if q else 12000)]),
-                  ("random_malformed", [gen_case(self.rng, malformed=True, odd=True) for _ in range(1200 if q else 20000)])]
+                  ("random_tame", [gen_case(self.rng) for _ in range(2500 if q else 25000)]),
+                  ("random_odd", [gen_case(self.rng, odd=True) for _ in range(800 if q else 8000)]),
+                  ("random_malformed", [gen_case(self.rng, malformed=True, odd=True) for _ in range(1200 if q else 12000)])]
         out = []
         for n, cs in blocks:
             self.hist["blocks"][n] = len(cs)
